@@ -29,25 +29,31 @@ func Eligible(prev *View, opts StakingOpts) []*ValRec {
 }
 
 // FlaggedAt returns the validators that the application flagged for missed votes while
-// beginning block h (their frozen record carries that height and the missed-votes status):
-// they were not frozen in the previous block's records but are not electable in block h.
+// beginning block h: they were not frozen in the previous block's records but are not electable
+// in block h. Their frozen record carries that height and the missed-votes status; when a guilty
+// verdict of the same block end overwrote the record, the election status that turned inactive in
+// block h tells that the validator was not elected (a validator elected in block h keeps an
+// active status until the next block end).
 func FlaggedAt(cur *View, h int64) map[string]bool {
 	out := map[string]bool{}
 	for a, f := range cur.Frozen {
-		if f.FrozenHeight == h && f.Status == StatusMissedVotes {
+		if f.FrozenHeight != h {
+			continue
+		}
+		st := cur.Status[a]
+		if f.Status == StatusMissedVotes || (st != nil && !st.Active && st.Height == h) {
 			out[a] = true
 		}
 	}
 	return out
 }
 
-// MaybeFlaggedAt returns the validators whose frozen record carries height h with the status of
-// a guilty verdict: the verdict of the block end overwrites a missed-votes record created while
-// the same block began, so these validators may or may not have been electable in block h.
+// MaybeFlaggedAt returns the validators frozen by a verdict of block h that have no election
+// status record at all, for which the dump cannot tell whether they were flagged at the begin.
 func MaybeFlaggedAt(cur *View, h int64) map[string]bool {
 	out := map[string]bool{}
 	for a, f := range cur.Frozen {
-		if f.FrozenHeight == h && f.Status != StatusMissedVotes {
+		if f.FrozenHeight == h && f.Status != StatusMissedVotes && cur.Status[a] == nil {
 			out[a] = true
 		}
 	}
